@@ -102,11 +102,12 @@ static uint32_t XWrite(uint32_t start, uint8_t *buf, uint32_t size) { x_arm(); u
 static const CO_IF_NVM_DRV XNvm = { XInit, XRead, XWrite };
 
 static int XFER;
+static CO_OBJ_STR DevName;
 static void build_world(int cfg)
 {
     OdB b; int g, i, o;
     XFER = mc_opt("xfer", 0);
-    LY = &LAY[cfg]; NG = LY->n; NSUB = NG == 1 ? 1 : NG + 1; NEV = 4 * NSUB + NG + 2;
+    LY = &LAY[cfg]; NG = LY->n; NSUB = NG == 1 ? 1 : NG + 1; NEV = 4 * NSUB + NG + 2 + (XFER ? 1 : 0);     /* xfer: one more history event, the upload of a string */
     w_regions_clear();
     w_reset(1000);
     memset(&Node, 0, sizeof Node); memset(TMem, 0, sizeof TMem); memset(SdoBuf, 0, sizeof SdoBuf); ErrReg = 0;
@@ -126,6 +127,8 @@ static void build_world(int cfg)
     ParaAll.Type = CO_RESET_INVALID; ParaAll.Ident = (void *)"all"; ParaAll.Value = CO_PARA___E;
 
     od_init(&b, OD, 48); od_mandatory(&b, &ErrReg); od_sdo_server0(&b);
+    DevName.Offset = 0; DevName.Start = (uint8_t *)"0123456save";          /* 1008h: a string whose upload leaves 'save' in the transfer buffer of the server */
+    od_add(&b, CO_KEY(0x1008, 0, CO_OBJ_____R_), CO_TSTRING, (CO_DATA)&DevName);
     od_add(&b, CO_KEY(0x1010, 0, CO_OBJ_D___R_), CO_TPARA_STORE,   (CO_DATA)(LY->cut == 2 ? 1 : PSUB(NSUB)));
     od_add(&b, CO_KEY(0x1011, 0, CO_OBJ_D___R_), CO_TPARA_RESTORE, (CO_DATA)(LY->cut == 1 ? 1 : PSUB(NSUB)));
     if (NG == 1) {
@@ -145,7 +148,7 @@ static void build_world(int cfg)
     Spec.TmrMem = TMem; Spec.TmrNum = 4; Spec.TmrFreq = 1000; Spec.Drv = &XDrv; Spec.SdoBuf = SdoBuf;
     memcpy(M.ram, RamInit, sizeof M.ram);
     memcpy(M.nvm, DRV.nvm, sizeof M.nvm);
-    W_REG(Node); W_REG(OD); W_REG(ErrReg); W_REG(SdoBuf); W_REG(TMem); W_REG(RamArena); W_REG(Para); W_REG(ParaAll); W_REG(X); W_REG(M);
+    W_REG(Node); W_REG(OD); W_REG(ErrReg); W_REG(SdoBuf); W_REG(TMem); W_REG(RamArena); W_REG(Para); W_REG(ParaAll); W_REG(X); W_REG(M); W_REG(DevName);
 }
 
 /* ------------------------------------------------------------------ helpers */
@@ -359,6 +362,27 @@ static void do_refused(uint16_t idx, int sub, uint8_t cmd, uint32_t val)
     cmp_images(ctx, "para-ram-content");
 }
 
+/* a segmented upload of the 11-character string 1008h ("0123456save"): it concerns no parameter group - the requests that follow meet a
+ * server whose transfer buffer and cursors were last used by an upload */
+static void do_upload(void)
+{
+    static const char *ctx = "segmented upload of 1008h"; int ok = 1;
+    step_begin();
+    w_rx8(&Node, 0x600 + NODE_ID, 0x40, 0x08, 0x10, 0, 0, 0, 0, 0);
+    if (OBS.ntx != 1 || OBS.tx[0].d[0] != 0x41) ok = 0;
+    w_obs_clear();
+    w_rx8(&Node, 0x600 + NODE_ID, 0x60, 0, 0, 0, 0, 0, 0, 0);
+    if (OBS.ntx != 1 || OBS.tx[0].d[0] != 0x00 || memcmp(OBS.tx[0].d + 1, "0123456", 7)) ok = 0;
+    w_obs_clear();
+    w_rx8(&Node, 0x600 + NODE_ID, 0x70, 0, 0, 0, 0, 0, 0, 0);
+    if (OBS.ntx != 1 || OBS.tx[0].d[0] != 0x17 || memcmp(OBS.tx[0].d + 1, "save", 4)) ok = 0;
+    step_end();
+    out_add((uint64_t)ok);
+    if (!ok) { FAIL("para-verdict", "%s does not deliver the string", ctx); return; }
+    if (no_default_cb(ctx) || check_writes(ctx, -1)) return;
+    cmp_images(ctx, "para-ram-content");
+}
+
 /* the application changes parameter values of group g */
 static void do_ramchg(int g, int stepno)
 {
@@ -429,7 +453,7 @@ static void ev_str(int e, char *b, size_t n)
     else if (e < 3 * NSUB) snprintf(b, n, "load:%d", 1 + e - 2 * NSUB);
     else if (e < 4 * NSUB) snprintf(b, n, "load?:%d", 1 + e - 3 * NSUB);
     else if (e < 4 * NSUB + NG) snprintf(b, n, "chg:g%d", 1 + e - 4 * NSUB);
-    else snprintf(b, n, "%s", e == 4 * NSUB + NG ? "reset-node" : "reset-com");
+    else snprintf(b, n, "%s", e == 4 * NSUB + NG ? "reset-node" : e == 4 * NSUB + NG + 1 ? "reset-com" : "upload-1008h");
 }
 static void do_event(int e, int stepno)
 {
@@ -438,6 +462,7 @@ static void do_event(int e, int stepno)
     else if (e < 3 * NSUB) { if (sub_exists(0x1011, 1 + e - 2 * NSUB)) do_load(1 + e - 2 * NSUB); else do_refused(0x1011, 1 + e - 2 * NSUB, 0x23, SIG_LOAD); }
     else if (e < 4 * NSUB) do_refused(0x1011, 1 + e - 3 * NSUB, 0x23, SIG_SAVE);
     else if (e < 4 * NSUB + NG) do_ramchg(e - 4 * NSUB, stepno);
+    else if (e == 4 * NSUB + NG + 2) do_upload();
     else do_nmt_reset(e == 4 * NSUB + NG + 1);
 }
 
